@@ -106,7 +106,9 @@ SPECS = [
     {'conv': 'cf1d', 'ny': 3, 'nx': 4, 'bounds': 'vars'}, {'conv': 'cf1d', 'ny': 3, 'nx': 4, 'bounds': 'coords'},
     {'conv': 'cf1d', 'ny': 1, 'nx': 4, 'bounds': 'vars'}, {'conv': 'cf1d', 'ny': 3, 'nx': 1, 'bounds': 'coords'},
     {'conv': 'cf1d', 'ny': 3, 'nx': 4, 'as_coords': False, 'ydim': 'y', 'xdim': 'x', 'bounds': 'vars'},
-    {'conv': 'cf2d', 'ny': 3, 'nx': 4}, {'conv': 'cf2d', 'ny': 4, 'nx': 4, 'holes': [[1, 1]]}, {'conv': 'cf2d', 'ny': 4, 'nx': 5, 'holes': [[0, 0], [2, 3], [2, 4]]},
+    {'conv': 'cf2d', 'ny': 3, 'nx': 4}, {'conv': 'cf2d', 'ny': 4, 'nx': 4, 'holes': [[1, 1]]},
+    # a one-cell-wide river between missing cells (cells bound by NaN on both sides are blanked while bounds are synthesised)
+    {'conv': 'cf2d', 'ny': 4, 'nx': 5, 'holes': [[1, 0], [1, 2], [2, 2], [3, 1], [3, 3]]}, {'conv': 'cf2d', 'ny': 4, 'nx': 5, 'holes': [[0, 0], [2, 3], [2, 4]]},
     {'conv': 'cf2d', 'ny': 3, 'nx': 4, 'bounds': 'vars', 'holes': [[0, 1]]}, {'conv': 'cf2d', 'ny': 3, 'nx': 4, 'bounds': 'coords'},
     {'conv': 'cf2d', 'ny': 3, 'nx': 3, 'bounds': 'vars', 'as_coords': False}, {'conv': 'cf2d', 'ny': 4, 'nx': 3, 'radial': True},
     {'conv': 'shoc_simple', 'ny': 3, 'nx': 4, 'bounds': 'vars'}, {'conv': 'shoc_simple', 'ny': 3, 'nx': 4, 'bounds': 'vars', 'first_plain': True},
@@ -120,6 +122,17 @@ SPECS = [
 ]
 
 
+def _dedup(ring):
+    """a ring without its closing vertex and without immediately repeated vertices (synthesised corners may coincide next to holes)"""
+    out = []
+    for v in ring:
+        if not out or tuple(v) != tuple(out[-1]):
+            out.append(tuple(v))
+    if len(out) > 1 and out[0] == out[-1]:
+        out.pop()
+    return out
+
+
 def gen(tier, seed):
     for s in SPECS:
         yield {'spec': s}
@@ -129,9 +142,14 @@ def test(inp):
     spec = inp['spec']
     want = corners_oracle(spec)
     ds = datasets.build(spec)
+    original = ds.copy(deep=True)
     with warnings.catch_warnings(record=True) as w:
         warnings.simplefilter('always')
         polys = must(lambda: ds.ems.polygons, 'polygons')
+        must(lambda: ds.ems.bounds, 'bounds')
+    if not ds.identical(original):
+        changed = [str(k) for k in ds.variables if not ds[k].identical(original[k])]
+        return f'building the polygons / extent modified the dataset itself: {changed}'
     if len(polys) != len(want):
         return f'{len(polys)} polygon slots for {len(want)} cells'
     if polys.flags.writeable:
@@ -146,7 +164,8 @@ def test(inp):
             return f'cell {n}: mask {mask[n]} disagrees with polygons'
         if p is None:
             continue
-        got = list(p.exterior.coords)[:-1]
+        got = _dedup(list(p.exterior.coords))
+        c = _dedup([tuple(map(float, v)) for v in c])
         if len(got) != len(c) or not numpy.allclose(numpy.array(got), numpy.array(c), rtol=0, atol=1e-12):
             return f'cell {n}: vertices {got} differ from the cell the dataset describes {c}'
     present = [p for p in polys if p is not None]
